@@ -3,19 +3,25 @@ namespace Yaclib.CoSharedMutex
 
 set_option maxHeartbeats 4000000 in
 theorem inv_step_4 {cfg s l s'} (hi : Inv cfg s) (hs : Step s l s') (hg : grpOf l = 4) : Inv cfg s' := by
-  cases hi
   cases hs with
   | runFirst c n h hf =>
-      have hby := pc_rRun c h
+      have hby := hi.pc_rRun c h
       obtain ⟨n', hpw⟩ := PW.cases_by hby
       have hn : n' = n := by
-        have := pw_first n' (by rw [hpw]; rfl)
+        have := hi.pw_first n' (by rw [hpw]; rfl)
         rw [hf] at this; exact (Option.some.inj this).symm
       subst hn
-      sm_dbg [List.count_le_length]
-  | trBegin c w r h ht ho => sm_dbg [List.count_le_length]
-  | trFail c w r h hw => sm_dbg [List.count_le_length]
-  | tryFailW c h => sm_dbg [List.count_le_length]
+      cases hi
+      sm_auto [List.count_le_length]
+  | trBegin c w r h ht ho =>
+      cases hi
+      sm_auto [List.count_le_length]
+  | trFail c w r h hw =>
+      cases hi
+      sm_auto [List.count_le_length]
+  | tryFailW c h =>
+      cases hi
+      sm_auto [List.count_le_length]
   | _ => simp [grpOf] at hg
 
 end Yaclib.CoSharedMutex
